@@ -1,6 +1,7 @@
 (* C07 wire functions.
    input : [rm mode [op ...]]   rm = RetryMax of the cluster (CrossRetry 0, RetryLevel RetryGet), mode 0 WRR / 1 WLC,
-           op = [1 rid [fwd ...] [steps ...]]  start GET number rid (0..2); fwd = HandleForward verdict per attempt,
+           op = [1 rid [fwd ...] [steps ...] rr rf]  (rr rf optional) start GET number rid (0..2); fwd = HandleForward verdict
+                                               per attempt, rr / rf = verdict of the HandleReadResponse / HandleRequestFinish handler,
                                                steps = outcome per attempt that reaches a live backend (see ConnCount.simulate);
                                                the harness waits until the request has completed or is held by a backend
               | [2 rid]                        release request / tunnel rid if a backend holds it and wait for its end (else no-op)
@@ -26,18 +27,25 @@ Definition NB : nat := 4%nat.     (* backends: 0, 1 live, 2 refuses connections;
 Definition DEAD2 : nat := 3%nat.
 Definition NR : nat := 3%nat.     (* request slots *)
 
-Inductive hop := HStart (rid : nat) (fwd steps : list Z) | HRelease (rid : nat) | HTunnel (rid : nat) (kind st : Z).
+Inductive hop := HStart (rid : nat) (fwd steps : list Z) (rr rf : Z) | HRelease (rid : nat) | HTunnel (rid : nat) (kind st : Z).
+
+Definition decode_start (rid : Z) (f s : val) (rr rf : Z) : option hop :=
+  match as_LZ f, as_LZ s with
+  | Some fwd, Some steps =>
+    if (0 <=? rid) && (rid <? 3) && forallb (fun x => (0 <=? x) && (x <=? 5)) fwd
+       && forallb (fun x => (0 <=? x) && (x <=? 4)) steps && (0 <=? rr) && (rr <=? 5) && (0 <=? rf) && (rf <=? 5)
+    then Some (HStart (Z.to_nat rid) fwd steps rr rf) else None
+  | _, _ => None
+  end.
+
+(* status the client sees: the HandleReadResponse chain may finish (nothing sent by the proxy: "200" with empty body from
+   finishRequest) or redirect (302) whatever response is in hand *)
+Definition final_status (rr : Z) (st : Z) : Z := if rr =? 0 then 200 else if rr =? 2 then 302 else st.
 
 Definition decode_op (v : val) : option hop :=
   match v with
-  | VL [VZ 1; VZ rid; f; s] =>
-    match as_LZ f, as_LZ s with
-    | Some fwd, Some steps =>
-      if (0 <=? rid) && (rid <? 3) && forallb (fun x => (0 <=? x) && (x <=? 5)) fwd
-         && forallb (fun x => (0 <=? x) && (x <=? 4)) steps
-      then Some (HStart (Z.to_nat rid) fwd steps) else None
-    | _, _ => None
-    end
+  | VL [VZ 1; VZ rid; f; s] => decode_start rid f s 1 1
+  | VL [VZ 1; VZ rid; f; s; VZ rr; VZ rf] => decode_start rid f s rr rf
   | VL [VZ 2; VZ rid] => if (0 <=? rid) && (rid <? 3) then Some (HRelease (Z.to_nat rid)) else None
   | VL [VZ 3; VZ rid; VZ kind; VZ st] =>
     if (0 <=? rid) && (rid <? 3) && (0 <=? kind) && (kind <=? 2) && (0 <=? st) && (st <=? 2)
@@ -85,7 +93,7 @@ Fixpoint exec (rm : Z) (ops : list hop) (choose : nat -> hop -> list nat) (k : n
   | [] => Some []
   | o :: rest =>
     match o with
-    | HStart rid fwd steps =>
+    | HStart rid fwd steps rr rf =>
       if is_held h rid then None else
       let ch := choose k o in
       match simulate 40 DEAD rm 0 fwd steps ch with
@@ -95,10 +103,12 @@ Fixpoint exec (rm : Z) (ops : list hop) (choose : nat -> hop -> list nat) (k : n
         match run_ops (reset (h_model h) rid) (tag rid (m_ops m)) with
         | None => None
         | Some s' =>
+          (* h_status: the status at completion (now, or when released) *)
+          let fin := final_status rr (if m_held m then 200 else m_status m) in
           let h' := mkH s' (upd (h_hold h) rid (if m_held m then Some (last ch O) else None)) (upd (h_choices h) rid ch)
-                        (upd (h_status h) rid (m_status m)) (upd (h_tun h) rid false) in
+                        (upd (h_status h) rid fin) (upd (h_tun h) rid false) in
           match exec rm rest choose (S k) h' with
-          | Some l => Some (obs_val ch (m_status m) (m_held m) s' :: l)
+          | Some l => Some (obs_val ch (if m_held m then 0 else fin) (m_held m) s' :: l)
           | None => None
           end
         end
@@ -114,7 +124,7 @@ Fixpoint exec (rm : Z) (ops : list hop) (choose : nat -> hop -> list nat) (k : n
         | Some s' =>
           let status := if held then 0 else 1 in
           let h' := mkH s' (upd (h_hold h) rid (if held then Some (last ch O) else None)) (upd (h_choices h) rid ch)
-                        (upd (h_status h) rid status) (upd (h_tun h) rid true) in
+                        (upd (h_status h) rid 1) (upd (h_tun h) rid true) in
           match exec rm rest choose (S k) h' with
           | Some l => Some (obs_val ch status held s' :: l)
           | None => None
@@ -129,7 +139,7 @@ Fixpoint exec (rm : Z) (ops : list hop) (choose : nat -> hop -> list nat) (k : n
         | None => None
         end
       else
-      let status := if h_tun h rid then 1 else 200 in
+      let status := h_status h rid in
       match run_ops (h_model h) (tag rid (if h_tun h rid then [TunnelEnd] else [RoundTrip 0; Finish])) with
       | None => None
       | Some s' =>
@@ -155,7 +165,7 @@ Definition obs_choices (o : val) (k : nat) (_ : hop) : list nat :=
 (* default choices (round-robin 0,1,2,...) used when no observation is available: the shortest prefix that fits *)
 Definition rr_choices (rm : Z) (k : nat) (o : hop) : list nat :=
   match o with
-  | HStart _ fwd steps =>
+  | HStart _ fwd steps _ _ =>
     let stream := map (fun j => Nat.modulo (j + k) NB) (seq 0 8) in
     match find (fun n => match simulate 40 DEAD rm 0 fwd steps (firstn n stream) with Some _ => true | None => false end)
                (seq 0 8) with
@@ -193,7 +203,7 @@ Definition agree_C07 (i o : val) : bool :=
 Definition holders (hold : nat -> option Z) (b : Z) : Z :=
   fold_right (fun rid acc => acc + match hold rid with Some x => if x =? b then 1 else 0 | None => 0 end) 0 (seq 0 NR).
 
-Definition op_rid (o : hop) : nat := match o with HStart r _ _ => r | HRelease r => r | HTunnel r _ _ => r end.
+Definition op_rid (o : hop) : nat := match o with HStart r _ _ _ _ => r | HRelease r => r | HTunnel r _ _ => r end.
 
 Fixpoint prop_ops (ops : list hop) (obs : list val) (hold : nat -> option Z) : bool :=
   match ops, obs with
